@@ -316,11 +316,29 @@ pub fn cell_of(v: &OwnedValue) -> String {
     }
 }
 
+thread_local! {
+    /// the prepared `INSERT INTO t VALUES (?, ?, ?)` of pseudo statement `@cached`, per database handle
+    static CACHED_INSERT: std::cell::RefCell<Option<(usize, turdb::PreparedStatement)>> = const { std::cell::RefCell::new(None) };
+}
+
 fn run_sql(db: &Database, sql: &str) -> Result<Result<ExecuteResult, String>, String> {
     let s = sql.to_string();
     guarded(std::panic::AssertUnwindSafe(move || {
         if s == "@checkpoint" {
             db.checkpoint().map(|_| ExecuteResult::Commit).map_err(|e| format!("{e:#}"))
+        } else if let Some(rest) = s.strip_prefix("@cached ") {
+            // `@cached <id> <a> <text>`: the same PreparedStatement object every time (its cached plan is what
+            // routes the execution through insert_cached from the second execution on)
+            let f: Vec<&str> = rest.splitn(3, ' ').collect();
+            let params = vec![OwnedValue::Int(f[0].parse().unwrap_or(0)), OwnedValue::Int(f[1].parse().unwrap_or(0)), OwnedValue::Text(f.get(2).unwrap_or(&"").to_string())];
+            let key = db as *const Database as usize;
+            CACHED_INSERT.with(|c| {
+                let mut c = c.borrow_mut();
+                if c.as_ref().map(|x| x.0) != Some(key) {
+                    *c = Some((key, db.prepare("INSERT INTO t VALUES (?, ?, ?)").map_err(|e| format!("{e:#}"))?));
+                }
+                db.execute_with_cached_plan(&c.as_ref().unwrap().1, &params).map_err(|e| format!("{e:#}"))
+            })
         } else {
             db.execute(&s).map_err(|e| format!("{e:#}"))
         }
@@ -707,7 +725,7 @@ impl Focus {
 }
 
 pub const FOCUS_C01: Focus = Focus { prop: "C01", whats: &["acked-lost", "table-lost", "table-unreadable", "open-error", "open-panic"], ddl_only: false };
-pub const FOCUS_C02: Focus = Focus { prop: "C02", whats: &["partial-stmt", "phantom-rows", "index-disagrees", "paths-differ", "table-unreadable", "open-error", "open-panic"], ddl_only: false };
+pub const FOCUS_C02: Focus = Focus { prop: "C02", whats: &["partial-stmt", "phantom-rows", "index-disagrees", "paths-differ", "table-unreadable", "open-error", "open-panic", "acked-lost", "table-lost"], ddl_only: false };
 pub const FOCUS_C40: Focus = Focus { prop: "C40", whats: &["table-lost", "table-unreadable", "open-error", "open-panic", "acked-lost", "phantom-rows", "partial-stmt"], ddl_only: true };
 
 fn is_ddl(sql: &str) -> bool {
@@ -996,8 +1014,8 @@ impl<'a> Gen<'a> {
     }
 }
 
-pub const CLASSES: &[&str] = &["dml-noidx", "bigtxn", "dml-pk", "dml-idx", "txn", "big", "ddl", "ckpt"];
-pub const CLASSES_C01: &[&str] = &["dml-noidx", "bigtxn", "dml-pk", "dml-idx", "txn", "big", "ddl", "ckpt", "ddl-heavy"];
+pub const CLASSES: &[&str] = &["dml-noidx", "bigtxn", "cachedtxn", "dml-pk", "dml-idx", "txn", "big", "ddl", "ckpt"];
+pub const CLASSES_C01: &[&str] = &["dml-noidx", "bigtxn", "cachedtxn", "dml-pk", "dml-idx", "txn", "big", "ddl", "ckpt", "ddl-heavy"];
 pub const CLASSES_C40: &[&str] = &["ddl", "ddl-heavy"];
 
 /// DDL-heavy workload: tables t0..t3 created / indexed / dropped in between inserts (C40 crash clause)
@@ -1079,6 +1097,27 @@ pub fn gen_case(rng: &mut Rng, class: &str, nstmts: usize) -> Case {
     sx_setup.extend(sx_rows);
     let mut work = vec![];
     let mut sx = vec![];
+    if class == "cachedtxn" {
+        // a transaction made only of executions of ONE prepared INSERT through its cached plan (insert_cached):
+        // these register no undo write entries, the pages reach the WAL only through the COMMIT flush
+        let mut id = 100i64;
+        let mut push = |work: &mut Vec<String>, sx: &mut Vec<String>, rng: &mut Rng| {
+            id += 1;
+            let a = rng.range(0, 9);
+            let b = txt(rng, false);
+            work.push(format!("@cached {id} {a} {b}"));
+            sx.push(format!("(insert t (0 1 2) (((int {id}) (int {a}) (text {}))))", hex(b.as_bytes())));
+        };
+        push(&mut work, &mut sx, g.rng);
+        push(&mut work, &mut sx, g.rng);
+        let (s, x) = g.stmt();
+        work.push(s); sx.push(x);
+        work.push("BEGIN".to_string()); sx.push("(begin)".to_string());
+        for _ in 0..(2 + g.rng.below(3)) { push(&mut work, &mut sx, g.rng); }
+        work.push("COMMIT".to_string()); sx.push("(commit)".to_string());
+        push(&mut work, &mut sx, g.rng);
+        return Case { model: "both".into(), class: class.to_string(), k: None, universe, setup, work, sx, sx_setup };
+    }
     if class == "bigtxn" {
         // one transaction that dirties more than COMMIT_BATCH_SIZE (16) pages, so that COMMIT takes the
         // chunked WAL path (execute_chunked_wal_commit), between small autocommit statements that have
